@@ -134,7 +134,7 @@ func c15Explore(c *mc.Check, bound int) {
 	if nshards == 0 {
 		nshards = 1
 	}
-	f := c.Family("schedules", fmt.Sprintf("for each of %d datasets (2×2 cells with a residue warning; two tables with an exact-assumption unit; three columns with a missing cell; one column of five rows with irregular values; cells merging results that differ in two unprojected keys; rows keyed by the growing .config group whose first result has no configuration) × GOMAXPROCS ∈ {1,2,3} (it sizes the semaphore): iterative-context-bounding DFS over the mechanically instrumented real Builder.ToTables + ToText + ToCSV: every interleaving of the cell goroutines, the column goroutines and the main goroutine at WaitGroup/Once/sync.Map/channel operations, and every order in which each range over a map delivers its keys, with at most %d deviations (a preemption of a goroutine that could have continued, or a map key picked out of canonical order); caches cold at the start of every execution; oracle: text, CSV and warning bytes identical to the default schedule's — which is itself identical for every GOMAXPROCS —, no deadlock, no panic; the root schedule is replayed twice and must reproduce its decisions and bytes; non-trivial = executions with ≥1 deviation", len(c15Datasets), bound), c15Replay)
+	f := c.Family("schedules", fmt.Sprintf("for each of %d datasets (2×2 cells with a residue warning; two tables with an exact-assumption unit; three columns with a missing cell; one column of five rows with irregular values; cells merging results that differ in two unprojected keys; rows in a requested numeric order over several spellings of numbers; rows keyed by the growing .config group whose first result has no configuration) × GOMAXPROCS ∈ {1,2,3} (it sizes the semaphore): iterative-context-bounding DFS over the mechanically instrumented real Builder.ToTables + ToText + ToCSV: every interleaving of the cell goroutines, the column goroutines and the main goroutine at WaitGroup/Once/sync.Map/channel operations, and every order in which each range over a map delivers its keys, with at most %d deviations (a preemption of a goroutine that could have continued, or a map key picked out of canonical order); caches cold at the start of every execution; oracle: text, CSV and warning bytes identical to the default schedule's — which is itself identical for every GOMAXPROCS —, no deadlock, no panic; the root schedule is replayed twice and must reproduce its decisions and bytes; non-trivial = executions with ≥1 deviation", len(c15Datasets), bound), c15Replay)
 	if c.Replaying() {
 		return
 	}
